@@ -37,17 +37,20 @@ OK    == <<"ok", "">>
 \*  hreg    : handle register -> value held (owned reference)
 \*  greg    : guard register  -> value denoted (borrowed or owned: not observable)
 \*  xreg    : cache -> value retained;  xcont : cache -> container
+\*  preg    : projection guard (Access / Map / DynAccess ...) -> the value whose projection it shows
+\*  ever    : container -> values ever stored in it (C12: isolation)
 \*  pend    : thread -> stack of pending operations (innermost first)
 \*  used    : threads that have completed at least one operation (C08 applies to them)
 \*  exempt  : threads whose next read may legitimately re-acquire bookkeeping (after a wrap)
 InitState ==
   [ cell |-> <<>>, known |-> {}, dead |-> {}, cnt |-> <<>>, parent |-> <<>>,
-    hreg |-> <<>>, greg |-> <<>>, xreg |-> <<>>, xcont |-> <<>>, pend |-> <<>>,
+    hreg |-> <<>>, greg |-> <<>>, xreg |-> <<>>, xcont |-> <<>>, pend |-> <<>>, preg |-> <<>>, ever |-> <<>>,
     used |-> {}, exempt |-> {}, upanic |-> FALSE ]
 
 Put(f, k, v) == (k :> v) @@ f
 Del(f, k)    == [x \in (DOMAIN f) \ {k} |-> f[x]]
 Get(f, k)    == IF k \in DOMAIN f THEN f[k] ELSE NoVal
+Get2(f, k)   == IF k \in DOMAIN f THEN f[k] ELSE {}
 PendOf(s, t) == IF t \in DOMAIN s.pend THEN s.pend[t] ELSE <<>>
 Top(s, t)    == Head(PendOf(s, t))
 HasPend(s, t) == PendOf(s, t) # <<>>
@@ -60,6 +63,7 @@ Owners(s, o) ==
   + Cardinality({h \in DOMAIN s.hreg : s.hreg[h] = o})
   + Cardinality({g \in DOMAIN s.greg : s.greg[g] = o})
   + Cardinality({x \in DOMAIN s.xreg : s.xreg[x] = o})
+  + Cardinality({q \in DOMAIN s.preg : s.preg[q] = o})
 
 Referenced(s, o) == Owners(s, o) > 0
 
@@ -68,6 +72,8 @@ InFlight(s) == UNION { UNION { PendOf(s, t)[i].seen : i \in 1..Len(PendOf(s, t))
 
 WritingOps == {"store", "swap", "cas", "rcu"}
 ReadingOps == {"load", "load_full"}
+\* a value that was only ever stored in ANOTHER container
+Foreign(s, c, v) == v # Null /\ (c \notin DOMAIN s.ever \/ v \notin s.ever[c]) /\ \E d \in DOMAIN s.ever : d # c /\ v \in s.ever[d]
 
 NewPend(e, seen) ==
   [ op |-> e.op, c |-> e.c, a |-> e.a, b |-> e.b, r |-> e.r, seen |-> seen,
@@ -121,8 +127,9 @@ DestroyE(s, e) == [s EXCEPT !.dead = @ \cup {e.o}]
 \* ---- inv(t, op, c, a, b, r)
 ArgLive(s, v) == Live(s, v)
 InvV(s, e) ==
-  CASE e.op \in {"load", "load_full", "store", "swap", "cas", "rcu", "into_inner_c", "drop_c", "cache_new"}
+  CASE e.op \in {"load", "load_full", "store", "swap", "cas", "rcu", "into_inner_c", "drop_c", "cache_new", "acc_load"}
          /\ e.c \notin DOMAIN s.cell -> <<"HARNESS", "operation on a container that does not exist">>
+    [] e.op = "drop_p" /\ Get(s.preg, e.r) # e.a -> <<"C17", "a projection guard no longer shows the snapshot it was created with">>
     [] e.op \in {"drop_g", "into_inner", "drop_g_arg"} /\ Get(s.greg, e.r) # e.a -> <<"C10", "a guard no longer denotes the value it was created with">>
     [] e.op \in {"drop_h"} /\ Get(s.hreg, e.r) # e.a -> <<"HARNESS", "handle register mismatch">>
     [] e.op = "from_inner" /\ Get(s.hreg, e.b) # e.a -> <<"HARNESS", "handle register mismatch">>
@@ -137,6 +144,7 @@ InvE(s, e) ==
       s1 == CASE e.op \in {"drop_g", "into_inner"} -> [s EXCEPT !.greg = Del(@, e.r)]
               [] e.op = "drop_g_arg" -> [s EXCEPT !.greg = Del(@, e.r)]
               [] e.op = "drop_h" -> [s EXCEPT !.hreg = Del(@, e.r)]
+              [] e.op = "drop_p" -> [s EXCEPT !.preg = Del(@, e.r)]
               [] e.op = "from_inner" -> [s EXCEPT !.hreg = Del(@, e.b)]
               [] e.op = "cache_drop" -> [s EXCEPT !.xreg = Del(@, e.r), !.xcont = Del(@, e.r)]
               \* the retained value is in flight while the cache revalidates
@@ -174,7 +182,7 @@ WriteV(s, e) ==
 WriteE(s, e) ==
   LET p  == Top(s, e.t)
       s1 == SetTop(s, e.t, [p EXCEPT !.wrote = TRUE, !.old = e.old, !.new = e.new])
-      s2 == [s1 EXCEPT !.cell[e.c] = e.new]
+      s2 == [s1 EXCEPT !.cell[e.c] = e.new, !.ever = Put(@, e.c, Get2(@, e.c) \cup {e.new})]
   IN Publish(s2, e.c, e.new)
 
 \* ---- rcu_f(t, c, cur, k): the user closure is called with cur
@@ -190,8 +198,13 @@ RcuFE(s, e) == SetTop(s, e.t, [Top(s, e.t) EXCEPT !.fcur = e.cur])
 RetV(s, e) ==
   LET p == WriterOf(s, e.t) IN
   CASE p.op # e.op /\ e.op # "noop" -> <<"HARNESS", "return does not match the pending operation">>
+    [] e.op \in ReadingOps /\ e.v \notin p.seen /\ Foreign(s, p.c, e.v)
+         -> <<"C03+C12", "load returned a value that was only ever stored in another container">>
     [] e.op \in ReadingOps /\ e.v \notin p.seen
          -> <<"C03", "load returned a value that was not stored in this container at any instant of the call">>
+    [] e.op = "acc_load" /\ e.v \notin p.seen
+         -> <<"C17", "a projection shows a value that was not stored in the container at any instant of the load">>
+    [] e.op = "acc_load" /\ ~Live(s, e.v) -> <<"C01+C17", "a projection guard was created on a destroyed value">>
     [] e.op \in ReadingOps /\ ~Live(s, e.v) -> <<"C01", "load returned a destroyed value">>
     [] e.op \in ReadingOps /\ e.t \in s.used /\ e.t \notin s.exempt /\ e.n > LoadStepBound
          -> <<"C08", "load took more own steps than the wait-free bound">>
@@ -221,7 +234,8 @@ RetV(s, e) ==
 RetE(s, e) ==
   LET p  == Top(s, e.t)
       s0 == [Pop(s, e.t) EXCEPT !.used = @ \cup (IF e.op \in ReadingOps \cup WritingOps THEN {e.t} ELSE {})]
-  IN CASE e.op = "new"           -> [s0 EXCEPT !.cell = Put(@, e.c, e.v)]
+  IN CASE e.op = "new"           -> [s0 EXCEPT !.cell = Put(@, e.c, e.v), !.ever = Put(@, e.c, {e.v})]
+       [] e.op = "acc_load"      -> [s0 EXCEPT !.preg = Put(@, e.r, e.v)]
        [] e.op = "load"          -> [s0 EXCEPT !.greg = Put(@, e.r, e.v)]
        [] e.op = "load_full"     -> [s0 EXCEPT !.hreg = Put(@, e.r, e.v)]
        [] e.op = "swap"          -> [s0 EXCEPT !.hreg = Put(@, e.r, e.v)]
@@ -237,8 +251,10 @@ RetE(s, e) ==
 
 \* ---- deref(t, k, r, o, alive, tag): user code looks at the value through a guard / handle / cache
 DerefV(s, e) ==
-  LET held == CASE e.k = "g" -> Get(s.greg, e.r) [] e.k = "h" -> Get(s.hreg, e.r) [] OTHER -> Get(s.xreg, e.r) IN
-  CASE e.k \in {"g", "h"} /\ held = NoVal -> <<"HARNESS", "deref of an empty register">>
+  LET held == CASE e.k = "g" -> Get(s.greg, e.r) [] e.k = "h" -> Get(s.hreg, e.r) [] e.k = "p" -> Get(s.preg, e.r) [] OTHER -> Get(s.xreg, e.r) IN
+  CASE e.k \in {"g", "h", "p"} /\ held = NoVal -> <<"HARNESS", "deref of an empty register">>
+    [] e.k = "p" /\ held # e.o -> <<"C17", "a projection guard shows another value than the snapshot it was created with">>
+    [] e.k = "p" /\ (~e.alive \/ e.o \in s.dead) -> <<"C01+C17", "a projection guard does not keep its snapshot alive">>
     [] e.k \in {"g", "h"} /\ held # e.o
          -> <<(IF e.k = "g" THEN "C10" ELSE "C01"), "a guard or handle dereferences to another value than the one it was created with">>
     [] ~e.alive \/ e.o \in s.dead -> <<(IF e.k = "g" THEN "C01+C10" ELSE "C01"), "dereference of a destroyed value">>
@@ -269,7 +285,7 @@ QuiescentV(s, e) ==
          -> <<LP(s), "a value has more references than owners (leak)">>
     [] \E o \in s.known \ s.dead : s.cnt[o] + QSlots(e, o) < Owners(s, o)
          -> <<LP(s), "a value has fewer references than owners (double release pending)">>
-    [] \E o \in (s.known \ s.dead) \cup {Null} : QSlots(e, o) > Cardinality({g \in DOMAIN s.greg : s.greg[g] = o})
+    [] \E o \in (s.known \ s.dead) \cup {Null} : QSlots(e, o) > Cardinality({g \in DOMAIN s.greg : s.greg[g] = o}) + Cardinality({q \in DOMAIN s.preg : s.preg[q] = o})
          -> <<LP(s), "a borrow slot stays occupied after its guard is gone">>
     [] \E o \in s.known \ s.dead : Owners(s, o) = 0
          -> <<LP(s), "a value without owners has not been destroyed (reclamation is not tight)">>
